@@ -16,12 +16,18 @@ import romsfiles as rf
 
 def write_layout(d, layout, dtype="f8"):
     names = []
+    vvals = layout.get("vvals")  # v of every frame (in frame order over all files); default v = 2 u
+    pos = 0
     for k, frames in enumerate(layout["files"]):
         times = [f[0] for f in frames]
         u = np.array([f[1] for f in frames], dtype=float).reshape(-1, 1, 1, 1)
+        vv = 2 * u if vvals is None else np.array(vvals[pos:pos + len(frames)], dtype=float).reshape(-1, 1, 1, 1)
+        pos += len(frames)
         t = np.array([f[2] for f in frames], dtype=float).reshape(-1, 1, 1, 1)
         p = d / f"forcing_{k:03d}.nc"
-        rf.write_roms(p, imax=6, jmax=5, N=2, times=times, u=u, v=2 * u, extra={"temp": t}, dtype=dtype)
+        # each file carries its own time reference: the frames are what the decoded times say
+        rf.write_roms(p, imax=6, jmax=5, N=2, times=times, u=u, v=vv, extra={"temp": t}, dtype=dtype,
+                      time_ref_shift=[0, -86400, 900, 86400][k % 4])
         names.append(p)
     return names
 
@@ -72,7 +78,10 @@ def spec(layout, fractions=(0.0, 0.5, 1.0)):
     n = abs(layout["stop"] - layout["start"]) // dt
     out = []
 
-    def lerp(t):
+    vvals = layout.get("vvals")
+    vframes = [[f[0], 2 * f[1] if vvals is None else vvals[j]] for j, f in enumerate(frames)]
+
+    def lerp(t, frames=frames):
         for a, b in zip(frames[:-1], frames[1:]):
             if a[0] <= t <= b[0]:
                 return a[1] + (b[1] - a[1]) * (t - a[0]) / (b[0] - a[0])
@@ -83,7 +92,7 @@ def spec(layout, fractions=(0.0, 0.5, 1.0)):
     for k in range(n):
         t = layout["start"] + (-k if rev else k) * dt
         row = {"step": k, "u": [sgn * lerp(t + (-f if rev else f) * dt) for f in fractions]}
-        row["v"] = [2 * x for x in row["u"]]
+        row["v"] = [sgn * lerp(t + (-f if rev else f) * dt, vframes) for f in fractions]
         if rev:
             cand = [f for f in frames if f[0] >= t]
             row["temp"] = cand[0][2]
